@@ -26,6 +26,7 @@ type HSpec struct {
 	Tier      string // "" both, "thorough" only in thorough
 	Timeout   [2]int // per-query ms quick, thorough (0 = default)
 	Tries     int    // native replay repetitions (map-order counterexamples)
+	Split     int    // >0: partition the path tree at this decision depth across workers
 }
 
 // Prop describes the check of one property.
@@ -124,28 +125,15 @@ func runProperty(repo, root, id, tier, only string) int {
 		specs = append(specs, h)
 	}
 	results := make([]*hResult, len(specs))
-	workers := runtime.NumCPU()
-	if workers > 16 {
-		workers = 16
-	}
-	if workers > len(specs) {
-		workers = len(specs)
-	}
 	var wg sync.WaitGroup
-	jobs := make(chan int)
-	for w := 0; w < workers; w++ {
+	for i := range specs {
+		i := i
 		wg.Add(1)
 		go func() {
 			defer wg.Done()
-			for i := range jobs {
-				results[i] = runOne(ctx, specs[i])
-			}
+			results[i] = runOne(ctx, specs[i])
 		}()
 	}
-	for i := range specs {
-		jobs <- i
-	}
-	close(jobs)
 	wg.Wait()
 	if prop.Extra != nil && only == "" {
 		prop.Extra(ctx)
@@ -259,6 +247,60 @@ func pick(a [2]int, tier string, def int) int {
 	return v
 }
 
+var slots = make(chan struct{}, 16)
+
+func mergeResult(dst, src *engine.HarnessResult) {
+	dst.Paths += src.Paths
+	dst.Pruned += src.Pruned
+	dst.Steps += src.Steps
+	dst.Decisions += src.Decisions
+	dst.Asserts += src.Asserts
+	dst.UnwindChecks += src.UnwindChecks
+	for k, v := range src.Reached {
+		dst.Reached[k] += v
+	}
+	for k := range src.Functions {
+		dst.Functions[k] = true
+	}
+	for _, v := range src.Violations {
+		cnt := 0
+		for _, x := range dst.Violations {
+			if x.Msg == v.Msg {
+				cnt++
+			}
+		}
+		if cnt < 3 {
+			dst.Violations = append(dst.Violations, v)
+		}
+	}
+	for _, i := range src.Inconclusive {
+		dup := false
+		for _, x := range dst.Inconclusive {
+			dup = dup || x == i
+		}
+		if !dup && len(dst.Inconclusive) < 20 {
+			dst.Inconclusive = append(dst.Inconclusive, i)
+		}
+	}
+	if len(dst.Samples) < 6 {
+		dst.Samples = append(dst.Samples, src.Samples...)
+	}
+}
+
+func mergeStats(dst *engine.Stats, src engine.Stats) {
+	dst.Queries += src.Queries
+	dst.Sat += src.Sat
+	dst.Unsat += src.Unsat
+	dst.Unknown += src.Unknown
+	dst.CacheHit += src.CacheHit
+	if dst.TimeS == nil {
+		dst.TimeS = map[string]float64{}
+	}
+	for k, v := range src.TimeS {
+		dst.TimeS[k] += v
+	}
+}
+
 func runOne(ctx *runCtx, h HSpec) *hResult {
 	t0 := time.Now()
 	fn := ctx.prog.Func(modPath+h.Dir, h.Fn)
@@ -267,37 +309,65 @@ func runOne(ctx *runCtx, h HSpec) *hResult {
 	}
 	res := &hResult{spec: h}
 	if fn == nil {
-		res.res = &engine.HarnessResult{Name: h.Fn, Inconclusive: []string{"harness function not found in " + h.Dir}}
+		res.res = &engine.HarnessResult{Name: h.Fn, Inconclusive: []string{"harness function not found in " + h.Dir}, Reached: map[string]int{}, Functions: map[string]bool{}}
 		return res
 	}
 	defTimeout := 20000
 	if ctx.tier == "thorough" {
 		defTimeout = 120000
 	}
-	s := engine.NewSolver(pick(h.Timeout, ctx.tier, defTimeout))
-	s.CrossCheck = false
-	defer s.Close()
 	cfg := engine.Config{Tier: ctx.tier, MapPerms: h.Perms, MaxStrLen: pick(h.MaxStrLen, ctx.tier, 8), MaxWallS: 900}
 	if ctx.tier == "thorough" {
 		cfg.MaxWallS = 5400
 	}
-	m := engine.NewMachine(ctx.prog.Prog, s, cfg, nil)
-	func() {
+	var mu sync.Mutex
+	// job runs one exploration (whole tree, frontier phase, or a subtree)
+	job := func(run func(m *engine.Machine) *engine.HarnessResult) (out *engine.HarnessResult) {
+		slots <- struct{}{}
+		defer func() { <-slots }()
+		s := engine.NewSolver(pick(h.Timeout, ctx.tier, defTimeout))
+		defer s.Close()
+		m := engine.NewMachine(ctx.prog.Prog, s, cfg, nil)
 		defer func() {
 			if r := recover(); r != nil {
 				buf := make([]byte, 4096)
 				n := runtime.Stack(buf, false)
-				res.res = m.Res
-				if res.res == nil {
-					res.res = &engine.HarnessResult{Name: h.Fn}
+				out = m.Res
+				if out == nil {
+					out = &engine.HarnessResult{Name: h.Fn, Reached: map[string]int{}, Functions: map[string]bool{}}
 				}
-				res.res.Inconclusive = append(res.res.Inconclusive, fmt.Sprintf("engine crash: %v\n%s", r, buf[:n]))
+				out.Inconclusive = append(out.Inconclusive, fmt.Sprintf("engine crash: %v\n%s", r, buf[:n]))
 			}
+			mu.Lock()
+			mergeStats(&res.stats, s.Stats)
+			res.disag = append(res.disag, s.Disagree...)
+			mu.Unlock()
 		}()
-		res.res = m.RunHarness(fn)
-	}()
-	res.stats = s.Stats
-	res.disag = s.Disagree
+		return run(m)
+	}
+	if h.Split <= 0 {
+		res.res = job(func(m *engine.Machine) *engine.HarnessResult { return m.RunHarness(fn) })
+	} else {
+		var frontier [][]int
+		res.res = job(func(m *engine.Machine) *engine.HarnessResult {
+			r, f := m.RunFrontier(fn, h.Split)
+			frontier = f
+			return r
+		})
+		var wg sync.WaitGroup
+		for _, pre := range frontier {
+			pre := pre
+			wg.Add(1)
+			go func() {
+				defer wg.Done()
+				r := job(func(m *engine.Machine) *engine.HarnessResult { return m.RunFrom(fn, pre) })
+				mu.Lock()
+				mergeResult(res.res, r)
+				mu.Unlock()
+			}()
+		}
+		wg.Wait()
+	}
 	res.wall = time.Since(t0).Seconds()
 	return res
 }
